@@ -1334,6 +1334,17 @@ class QuicConnection:
             )
 
         self._close_at = now + self._idle_timeout()
+
+        # When the handshake starts afresh (Retry, Version Negotiation) the server
+        # has discarded everything sent so far: hand the frames of outstanding
+        # packets (0-RTT stream data) back for retransmission and release their
+        # bytes in flight before the packet spaces are replaced.
+        for space in self._loss.spaces:
+            for packet in list(space.sent_packets.values()):
+                for handler, args in packet.delivery_handlers:
+                    handler(QuicDeliveryState.LOST, *args)
+            self._loss.discard_space(space)
+
         self._initialize(self._peer_cid.cid)
 
         self.tls.handle_message(b"", self._crypto_buffers)
